@@ -1,6 +1,8 @@
 import PonyVerif.Drive.Util
 import PonyVerif.Model.Serial
 import PonyVerif.Model.BagWalk
+import PonyVerif.Model.AttrSel
+import PonyVerif.Model.Pickle
 namespace PonyVerif.Drive.C31
 open Lean PonyVerif.Drive PonyVerif.Model.Serial
 
@@ -11,6 +13,31 @@ def jKey : Option Key → Json
   | none => .null
   | some (.text s) => Json.mkObj [("text", .str s)]
   | some (.single s) => Json.mkObj [("single", .str s)]
+
+open PonyVerif.Model.AttrSel in
+def parseSel (j : Json) : Except String Sel :=
+  match j with
+  | .null => pure .none
+  | .str s => pure (.str s)
+  | .arr a => do pure (.tup (← a.toList.mapM (fun x => match x with | .str s => pure s | _ => throw "sel: strings expected")))
+  | _ => throw "sel: null, string or list of strings"
+
+namespace Pk
+open PonyVerif.Model.Pickle
+def parseStatus : String → Except String Status
+  | "created" => pure .created | "modified" => pure .modified | "loaded" => pure .loaded | "inserted" => pure .inserted
+  | "updated" => pure .updated | "marked_to_delete" => pure .markedToDelete | "deleted" => pure .deleted | "cancelled" => pure .cancelled
+  | s => throw s!"unknown status {s}"
+def parseVals (j : Json) : Except String (List (String × Nat)) := do
+  match j with
+  | .arr a => a.toList.mapM (fun e => match e with
+      | .arr #[.str n, v] => do pure (n, ← fromJson? v)
+      | _ => throw "vals: [name, value]")
+  | _ => throw "vals: list expected"
+def parseObj (j : Json) : Except String Obj := do
+  pure { pk := ← j.getObjValAs? Nat "pk", status := ← parseStatus (← j.getObjValAs? String "status"), vals := ← parseVals (← j.getObjVal? "vals") }
+def jVals (l : List (String × Nat)) : Json := .arr (l.map (fun e => Json.arr #[.str e.1, .num (JsonNumber.fromNat e.2)])).toArray
+end Pk
 
 def handle (j : Json) : Except String Json := do
   let op ← argStr j "op"
@@ -29,6 +56,29 @@ def handle (j : Json) : Except String Json := do
   | "dictkey" =>
       let parts ← strList j "raw"
       pure (Json.mkObj [("ok", jKey (bagDictKey parts))])
+  | "reduce_entity" =>
+      let o ← Pk.parseObj (← j.getObjVal? "obj")
+      match PonyVerif.Model.Pickle.reduce o with
+      | .ok p => pure (Json.mkObj [("ok", Json.mkObj [("pk", .num (JsonNumber.fromNat p.pk)), ("d", Pk.jVals p.d)])])
+      | .error e => pure (Json.mkObj [("error", .str e)])
+  | "unpickle_entity" =>
+      let s ← (← argArr j "session").mapM Pk.parseObj
+      let pj ← j.getObjVal? "pickle"
+      let p : PonyVerif.Model.Pickle.Pickled := { pk := ← pj.getObjValAs? Nat "pk", d := ← Pk.parseVals (← pj.getObjVal? "d") }
+      let r := (PonyVerif.Model.Pickle.unpickle s p).2
+      pure (Json.mkObj [("ok", Json.mkObj [("pk", .num (JsonNumber.fromNat r.pk)), ("deleted", .bool r.status.isDel), ("vals", Pk.jVals r.vals)])])
+  | "getattrs" =>
+      -- attrs: [[name, isCollection, isLazy], …]; history: [[only, exclude, with_collections, with_lazy], …] on a fresh cache
+      let attrs ← (← argArr j "attrs").mapM (fun a => match a with
+        | .arr #[.str n, .bool c, .bool l] => pure (PonyVerif.Model.AttrSel.Attr.mk n c l)
+        | _ => throw "attrs: [name, isCollection, isLazy]")
+      let qs ← (← argArr j "history").mapM (fun q => match q with
+        | .arr #[o, e, .bool wc, .bool wl] => do pure (PonyVerif.Model.AttrSel.Query.mk (← parseSel o) (← parseSel e) wc wl)
+        | _ => throw "history: [only, exclude, with_collections, with_lazy]")
+      let rs := PonyVerif.Model.AttrSel.runHist PonyVerif.Model.AttrSel.splitBlank attrs [] qs
+      pure (Json.mkObj [("ok", .arr (rs.map (fun r => match r with
+        | .ok l => Json.mkObj [("ok", .arr (l.map Json.str).toArray)]
+        | .error n => Json.mkObj [("error", .str n)])).toArray)])
   | "bagwalk" =>
       -- rel: list (index = object) of lists of objects; ro: list of bools; given: list of objects; reply: [[object, full?], …] sorted by object
       let rel ← (← argArr j "rel").mapM (fun r => match r with
